@@ -96,10 +96,6 @@ Definition oracle_reload (v : Z) (e : env) (old new : Z) (intended : option Z)
   if ok then
     (* the signal went to the NGINX master and was delivered *)
     e_kill e && match kill with Some p => optZ_eqb intended (Some p) | None => false end &&
-    (* nothing the outside world answered was an error *)
-    negb (existsb statres_is_err (e_stat e)) && negb (readres_is_err (e_pidfile e)) &&
-    negb (readres_is_err (e_children0 e)) && negb (existsb readres_is_err (e_children e)) &&
-    forallb (fun a => match version_of a with Some _ => true | None => false end) (e_versions e) &&
     (* new workers exist: the last look at the children file differs from the one before the signal *)
     match e_children0 e, last_opt (e_children e) with
     | RdOk prev, Some (RdOk c) => negb (String.eqb prev c)
